@@ -311,6 +311,7 @@ def run(ck):
             continue
         if "broken" in p:
             ck.hit("rejects_inconsistent")
+            ck.hit("reject_rule_" + p["broken"])
             ck.case(("reject", p["broken"]) + base, nontrivial=True)
             if out["raised"] is None or out["raised"][0] != "ValueError":
                 ck.violation(
@@ -358,7 +359,9 @@ def run(ck):
             tol = TOL_EXACT if p["method"] == "exact" else TOL_EXPANDED
             if row["kind"] == "crossing":
                 tol += 2 * DEC_TOL * row["amax"] ** 3
-            worst["same" if row["kind"] == "same-patch" else "crossing"] = max(worst["same" if row["kind"] == "same-patch" else "crossing"], res)
+            wk = "same" if row["kind"] == "same-patch" else "crossing"
+            if res <= tol:
+                worst[wk] = max(worst[wk], res)
             if res > tol:
                 k1 = all(k == 1.0 for k in p["matching"])
                 x1 = p["xif2"] == 1.0
@@ -427,4 +430,4 @@ def run(ck):
             )
         else:
             ck.ok()
-    ck.note(worst_fixed_point_same_patch=worst["same"], worst_fixed_point_crossing=worst["crossing"])
+    ck.note(worst_held_fixed_point_same_patch=worst["same"], worst_held_fixed_point_crossing=worst["crossing"])
